@@ -37,6 +37,9 @@ def cases(tier, seed, flavour):
                 continue
             for g0 in itertools.product(pl, repeat=m):
                 yield {'fam': 'lp', 'n': n, 'm': m, 'c': list(cc), 'g0': list(g0), 'pal': pl}
+    for q0 in pal:
+        for q1 in pal:
+            yield {'fam': 'qp-eq', 'q0': q0, 'q1': q1, 'pal': pal}
     structs = dom.structures(tier)
     nvar = 2 if tier == 'quick' else 3
     for d in structs:
@@ -155,6 +158,55 @@ def run(case):
                 _tag(O, nv, inst, cfg)
             if vals and max(vals) - min(vals) > 1e-6 * max(1.0, abs(vals[0])):
                 O.bad('objective-differs-across-paths@conelp', 'optimal values of the solver paths differ: %r' % vals)
+    elif case['fam'] == 'qp-eq':
+        # equality-constrained QPs with positive definite P, solved (a) without inequalities - coneqp's direct path - and
+        # (b) with one redundant inequality 0'x <= 1 - the interior-point path: the same problem, so the objectives of the
+        # two solver paths agree, and both bracket the exact optimum (closed form over the rationals)
+        pal = case['pal']
+        n = 2
+        d0 = {'l': 0, 'q': [], 's': []}
+        d1 = {'l': 1, 'q': [], 's': []}
+        for Lv in itertools.product(pal, repeat=3):
+            L = [[float(Lv[0]), 0.0], [float(Lv[1]), float(Lv[2])]]
+            P = [[sum(L[i][k] * L[j][k] for k in range(2)) + (1.0 if i == j else 0.0) for j in range(2)] for i in range(2)]
+            for Ar in itertools.product(pal, repeat=2):
+                if not any(Ar):
+                    continue
+                for bv in pal:
+                    q = [float(case['q0']), float(case['q1'])]
+                    base = {'P': P, 'q': q, 'A': [[float(t) for t in Ar]], 'b': [float(bv)]}
+                    i0 = dict(base, G=[[], []], h=[], dims=d0)
+                    i1 = dict(base, G=[[0.0], [0.0]], h=[1.0], dims=d1)
+                    exact = qpsolve.exact_eq_qp(i0)
+                    vals = []
+                    for inst, cfg in ((i0, {'entry': 'coneqp', 'storage': 'dense', 'kkt': None, 'noG': True}),
+                                      (i0, {'entry': 'qp', 'storage': 'sparse', 'kkt': None, 'noG': True}),
+                                      (i1, {'entry': 'coneqp', 'storage': 'dense', 'kkt': None}),
+                                      (i1, {'entry': 'qp', 'storage': 'dense', 'kkt': None})):
+                        res, _ = qpsolve.call(inst, cfg)
+                        n_ev += 1
+                        nv = len(O.viol)
+                        if isinstance(res, Exception):
+                            O.bad('exception:%s@%s:Ppd' % (type(res).__name__, cfg['entry']), 'exception on a well-posed QP: %r' % (res,))
+                            note('wp:exc')
+                        else:
+                            lab = str(res['status'])
+                            note('wp:' + lab)
+                            if lab == 'optimal':
+                                vals.append(res['primal objective'])
+                                nontriv += 1
+                                if abs(res['primal objective'] - exact['value']) > 1e-6 * max(1.0, abs(exact['value'])):
+                                    O.bad('objective-differs-from-exact@%s%s' % (cfg['entry'], ':no-inequalities' if cfg.get('noG') else ''),
+                                          'primal objective %r, exact optimal value %r' % (res['primal objective'], exact['value']))
+                            elif lab == 'unknown':
+                                _small(O, 'unknown-on-well-posed@' + cfg['entry'], res, None)
+                            else:
+                                O.bad('status:%s@%s' % (lab, cfg['entry']), 'status %r on a well-posed QP' % lab)
+                        _tag(O, nv, inst, cfg, ('P', 'q', 'G', 'h', 'dims', 'A', 'b'))
+                    if vals and max(vals) - min(vals) > 1e-6 * max(1.0, abs(vals[0])):
+                        O.bad('objective-differs-across-paths@coneqp:no-inequalities', 'optimal values of the solver paths differ: %r' % vals)
+                if len(O.viol) > 30:
+                    break
     elif case['fam'] == 'qp':
         inst = qpsolve.planted_qp(case['dims'], case['n'], case['p'], case['variant'])
         if inst is not None:
